@@ -32,6 +32,7 @@ impl Space {
                     "FL" => fam::fl_count(k),
                     "FB" => fam::fb_count(k),
                     "FU" => fam::fu_count(),
+                    "FW" => fam::fw_count(),
                     _ => panic!("unknown family {name}"),
                 },
             })
@@ -54,6 +55,7 @@ impl Space {
                     "FL" => fam::fl_decode(idx, p.k),
                     "FB" => fam::fb_decode(idx, p.k),
                     "FU" => fam::fu_decode(idx),
+                    "FW" => fam::fw_decode(idx),
                     _ => unreachable!(),
                 };
                 return (p.name, g);
